@@ -216,6 +216,14 @@ def missingParams (args : List CArg) (defaults : List String) : List (String × 
 
 def positionalCount (args : List CArg) : Nat := (args.filter fun a => a.name.isNone).length
 
+/-- `check_param_default`: the positions of the parameters whose default value does not have the parameter's type.
+A parameter is (name, declared type, type of its default value if it has one). -/
+def defaultErrors (ok : String → String → Bool) (ps : List (String × String × Option String)) : List Nat :=
+  (List.range ps.length).filter fun i =>
+    match ps[i]? with
+    | some (_, t, some d) => !ok d t
+    | _ => false
+
 /-! ### Trait adoption (`check_trait_conformance` / `check_trait_conformance_model`, check_decl.rs) -/
 
 structure TraitSpec where
